@@ -745,12 +745,17 @@ impl DtlsInner {
                             ctx.incomplete_msg_seq = msg.message_seq;
                         }
 
-                        // Only the fragment that continues the buffer is appended; duplicates
-                        // and fragments that arrive early are ignored (the flight is retransmitted).
-                        if msg.fragment_offset as usize != ctx.incomplete_handshake.len() {
+                        // Fragment ranges may overlap (RFC 6347 4.2.3): a fragment that starts
+                        // inside or at the end of the buffer contributes the bytes beyond it.
+                        // Duplicates and fragments that arrive early are ignored (the flight is
+                        // retransmitted).
+                        let have = ctx.incomplete_handshake.len();
+                        let offset = msg.fragment_offset as usize;
+                        if offset > have || offset + msg.body.len() <= have {
                             continue;
                         }
-                        ctx.incomplete_handshake.extend_from_slice(&msg.body[..]);
+                        ctx.incomplete_handshake
+                            .extend_from_slice(&msg.body[have - offset..]);
 
                         if ctx.incomplete_handshake.len() < msg.total_length as usize {
                             // Still incomplete, wait for more fragments
